@@ -741,21 +741,26 @@ def ak (s : List CN) : Except CtorErr ArrRes := Id.run do
 
 def ofMask (k : Nat) : List CN := (CN.all.zipIdx).filterMap (fun (c, i) => if k.testBit i then some c else none)
 
-/-- compare on all 2^19 name sets (in `_coordinate_order` and reversed): number of comparisons, descriptions of disagreements -/
-def selfcheck : Nat × List String := Id.run do
+/-- number of names in the set with mask `k` -/
+def popcount (k : Nat) : Nat := ((List.range 19).filter k.testBit).length
+
+/-- compare the grouped model with the literal transcriptions on the name sets with masks `lo ≤ k < hi` that satisfy `sel`
+(each in `_coordinate_order` and reversed): number of comparisons, descriptions of the disagreements -/
+def selfcheck (lo hi : Nat) (sel : Nat → Bool) : Nat × List String := Id.run do
   let mut cnt := 0
   let mut bad : List String := []
-  for k in [0:2^19] do
-    let s := ofMask k
-    for s' in [s, s.reverse] do
-      let tag := ",".intercalate (s'.map CN.str)
-      if objModel s' != obj s' then bad := s!"obj {tag}" :: bad
-      for d in [2, 3, 4] do
-        for m in [false, true] do
-          if classModel d m s' != cls d m s' then bad := s!"class {d} {m} {tag}" :: bad
-      if arrayModel s' != np s' then bad := s!"array {tag}" :: bad
-      if zipModel s' != ak s' then bad := s!"zip {tag}" :: bad
-      cnt := cnt + 9
+  for k in [lo:hi] do
+    if sel k then
+      let s := ofMask k
+      for s' in [s, s.reverse] do
+        let tag := ",".intercalate (s'.map CN.str)
+        if objModel s' != obj s' then bad := s!"obj {tag}" :: bad
+        for d in [2, 3, 4] do
+          for m in [false, true] do
+            if classModel d m s' != cls d m s' then bad := s!"class {d} {m} {tag}" :: bad
+        if arrayModel s' != np s' then bad := s!"array {tag}" :: bad
+        if zipModel s' != ak s' then bad := s!"zip {tag}" :: bad
+        cnt := cnt + 9
   return (cnt, bad.reverse)
 
 end Seq
